@@ -237,6 +237,19 @@ def s7_prop(ctx, prop_id):
         corpus = load_corpus(ctx, prop_id)
         ctx.cov['corpus_cases'] = len(corpus)
         s7_check(ctx, prop_id, corpus + cases)
+        if prop_id == 'C07':
+            # a provider that returns TerminalError must have been given a fallible class (theorem
+            # C07_terminal_error_is_never_a_plain_output over the regenerated registry): look at what the implementation did
+            n_te = 0
+            for c in corpus + cases:
+                hdr, fs = dump_funcs(c, 'S3')
+                for f in fs or []:
+                    if '21' in f['out'].split(',') and f['class'] in ('injector', 'static-injector'):
+                        ctx.violations.append(('provider %s returns TerminalError but was classified %s: its error is an ordinary output and stops nothing (case %s)'
+                                               % (f['id'], f['class'], c.key), write_replay(ctx, 'case_%s.txt' % c.key, c.text()), True))
+                    if f['class'] in ('fallible-injector', 'fallible-static-injector'):
+                        n_te += 1
+            ctx.cov['fallible_providers_classified'] = n_te
         if prop_id in ('C01', 'C02'):
             # which provider's value a parameter / a received value is matched to (interface matches through Loose, nearest
             # candidate first) and which slot it lives in: the model of match.go / include.go / bind.go against the dumps
